@@ -75,7 +75,9 @@ def run(tier, opts):
                "walks the serialised form of accepted proofs (fresh toy proofs: every position; shipped proofs of the build + fixture: "
                + ("3 seeded positions per class" if quick else "every position") + "), applies replace(+1 / random / 0), delete (each index of small "
                "vectors, first/middle/last/random of large ones) and append, and runs the real verifier: a mutant other than 'append' must not be "
-               "accepted; every class of the model must have been exercised. non-trivial = distinct (class, mutation) pairs exercised")
+               "accepted; every class of the model must have been exercised. One replaced and one deleted position per (proof, class) is also run with the hooks "
+               "recording, and the trace must be a behaviour of Trace_Stark (the verifier stops at the first failing check: no decommitment of the "
+               "composition or FRI after a failed trace decommitment, no acceptance after any failed check). non-trivial = distinct (class, mutation) pairs exercised")
     ck.assumptions = ["hash collision resistance; a replaced PoW nonce passes with probability 2^-n_bits",
                       "panic is 'not accepted' here (reported by C18)"]
     res = vf.tlc("Tamper", workers=2, timeout=600)
@@ -95,7 +97,8 @@ def run(tier, opts):
     for b in builds:
         binp = vf.build(b)
         outp = os.path.join(tmp, f"tamper-{b}.ndjson")
-        vf.vh(binp, ["tamper", outp, 12 if quick else 60, "sample" if quick else "all", 3], timeout=6 * 3600)
+        trace = os.path.join(tmp, f"tamper-trace-{b}.ndjson")
+        vf.vh(binp, ["tamper", outp, 12 if quick else 60, "sample" if quick else "all", 3, trace], timeout=6 * 3600)
         recs = vf.read_ndjson(outp)
         summ = [r for r in recs if r.get("summary")][0]
         for r in recs:
@@ -119,6 +122,11 @@ def run(tier, opts):
                 else:
                     key = f"accepted:{b}:{r['layout']}:{r['class']}:{r['mutation']}"
                 ck.violation(key, f"[{b}] mutant accepted: {r['mutation']} at {r['path']} of {r['subject'][:60]}", r)
+        # recorded runs of one replaced / one deleted position per (subject, class): the verifier must stop where the spec says
+        ncases = sum(1 for r in vf.read_ndjson(trace) if r.get("ev") == "reset")
+        common.validate_trace(ck, "Trace_Stark", trace, f"[{b}] verification of tampered proofs", f"trace:{b}", timeout=3600, max_rounds=20,
+                              keyfn=lambda case, bad: f"trace:{b}:{bad.get('ev')}:{'toy' if case[0]['case']['subject'].startswith('toy') else case[0]['case']['subject'].split('/')[0]}:{case[0]['case']['mutation']}:{case[0]['case']['path'].split('[')[0]}")
+        ck.extra.setdefault("tampered_runs_trace_validated", {})[b] = ncases
         ck.extra.setdefault("mutants_verified", {})[b] = summ["mutants"]
         ck.extra.setdefault("subjects", {})[b] = summ["subjects"]
     missing = model_classes - covered - {"pi.dynamic_param", "pi.page_header"}
